@@ -215,10 +215,26 @@ class C30(Check):
                 if pos <= a < b <= n:
                     so.append([a, b])
                     pos = b
+            # keep most cases inside the domain: an edit that partly overlaps a source-only slice is snapped onto it
+            # or clipped in front of it (one case in eight is left as drawn, so the exclusion path stays exercised)
+            if so and draw(st.integers(0, 7)):
+                for buf in buffers:
+                    for p in buf:
+                        for a, b in so:
+                            s_, e_ = p[0], p[1]
+                            if (s_, e_) == (a, b):
+                                continue
+                            if (s_ == e_ and a < s_ < b) or (s_ != e_ and max(s_, a) < min(e_, b)):
+                                if draw(st.booleans()):
+                                    p[0], p[1] = a, b
+                                else:
+                                    p[0], p[1] = min(s_, a), min(e_, a)
+                                    if p[0] == p[1] and not p[2]:
+                                        p[2] = "X"
             return {"kind": "explicit", "src": src, "buffers": buffers, "so": so}
 
         real = gens.template_fix_case().map(lambda c: dict(c, kind="real"))
-        return st.integers(0, 24).flatmap(lambda k: real if k == 0 else synth())
+        return st.integers(0, 39).flatmap(lambda k: real if k == 0 else synth())
 
     def examples(self, tier):
         return 1250 if tier == "quick" else 120000
@@ -259,7 +275,8 @@ class C30(Check):
             return self.run_real(case, out)
         src, buffers, so = case["src"], case["buffers"], [tuple(x) for x in case["so"]]
         out.label("generated/explicit")
-        self.judge(out, src, buffers, so)
+        if not self.judge(out, src, buffers, so):
+            return out
         out.nontrivial = interesting({tuple(p) for b in buffers for p in b}, sum(len(b) for b in buffers), so)
         if out.nontrivial:
             out.label("explicit:interacting")
